@@ -232,9 +232,8 @@ def r06_5_all_items(ctx: Ctx):
                 img_t = None
                 if pne is not None:
                     a0 = C.arg(pne, 0, 'floatVariables')
-                    ce = C.call_event_of_result(p, a0) if a0 is not None else None
-                    if ce is not None and any(isinstance(c, FuncInfo) and c.qualname == gi.qualname
-                                              for c in ce.d['callees']):
+                    ce = C.image_call_of(p, a0, gi) if a0 is not None else None
+                    if ce is not None:
                         img_t = ce.d['args'][0] if ce.d['args'] else None
                 ok = isinstance(img_t, RF) and isinstance(t, RF) and key_of(img_t) == key_of(t)
                 ctx.check(ok, rid, f.short, f.loc(ne.node),
